@@ -1,15 +1,21 @@
 """C04: acks reach each source in read order."""
 import os, sys
 sys.path.insert(0, os.path.dirname(__file__))
+from stream_jobs import JOBS as _SJ, LEAN_MODULES as _SM, RULE as _SR, ASSUMPTIONS as _SA
 from funnel_common import arbiter_job, funnel_job, funnel_conc_job, funnel_shared_job, FUNNEL_RULE, FUNNEL_ASSUME
 
 PROP = {
-    "lean_modules": ["ConduitModel.Props.C04", "ConduitModel.Props.ArbiterProps"],
+    "lean_modules": ["ConduitModel.Props.PassC04", "ConduitModel.Props.C04", "ConduitModel.Props.ArbiterProps"],
     "jobs": [funnel_job("C04"), funnel_conc_job("C04"), funnel_shared_job("C04"), arbiter_job()],
     "rule": FUNNEL_RULE,
     "strength": 'arbiter release order and loop partition: full; whole pass: partial (see note)',
     "assumptions": FUNNEL_ASSUME,
 }
+PROP["jobs"] += _SJ["C04"]
+PROP["lean_modules"] += _SM["C04"]
+PROP["rule"] += " || v1: " + _SR
+PROP["assumptions"] = list(PROP["assumptions"]) + _SA
+
 META = {
     "text": 'Lean 4 theorems: the multiAckNacker releases exactly the in-order prefix 0..released-1, each position once, released monotone, for every vote sequence (C04_ma_release_prefix/_next); the tainted loop hands out sub-batches left to right covering the batch exactly once (C04_groups_in_read_order, _strictly_advance). Whole-pass ack order is decided by the C04 monitor (acks = exact prefix of records read; overlapping Source.Ack calls flagged) on every implementation trace incl. real concurrent fan-out with a slow source, and by equality with the model.',
     "note": 'PARTIAL: the composition of these leaf theorems with the task recursion of Worker.doTaskAttempt/doNextTask (whole-pass statement) is validated by equality of event logs against the executable Lean model and by the Lean-defined trace monitor on every implementation trace (serial fan-out orders, real concurrent fan-out, several sources into one shared sink), not proved. v1 (default engine) part: Props/*Stream when merged. Trusted: Lean kernel, factgen, harness/fakes, Go runtime.',
